@@ -96,13 +96,14 @@ func (rn *runner) pool(k int, end int) websocket.BufferPool {
 	if k == 0 {
 		return nil
 	}
-	return &poolView{p: rn.pools[k], end: end}
+	return &poolView{p: rn.pools[k], end: end, sim: rn.sim}
 }
 
 func linkAddr(i int) string { return fmt.Sprintf("srv%d:80", i) }
 
-// startLink wires one link: registers the server node and starts the client.
-func (rn *runner) startLink(i int) {
+// registerLink creates the ends of link i and registers its server node.
+// All links are registered (by the root goroutine) before any client starts.
+func (rn *runner) registerLink(i int) {
 	l := &rn.scn.Links[i]
 	addr := linkAddr(i)
 	if l.Client != nil {
@@ -127,6 +128,11 @@ func (rn *runner) startLink(i int) {
 	default:
 		rn.net.Handle(addr, func(c *SimConn) { rn.scriptedServer(i, c) })
 	}
+}
+
+// startLink starts the client side of link i.
+func (rn *runner) startLink(i int) {
+	l := &rn.scn.Links[i]
 	if l.Client != nil {
 		rn.sim.GoID(i*16, fmt.Sprintf("dial%d", i), func(t *Task) { rn.dialReal(i, t) })
 	} else {
@@ -577,6 +583,7 @@ func (c *SimConn) drainForever() {
 
 type poolEvt struct {
 	Put  bool
+	T    int64
 	End  int
 	ID   int // identity of the backing array (index in simPool.bufs)
 	Step uint64
@@ -635,13 +642,13 @@ func (v *poolView) Get() interface{} {
 	p.mu.Lock()
 	defer p.mu.Unlock()
 	if len(p.free) == 0 {
-		p.log = append(p.log, poolEvt{End: v.end, Nil: true, ID: -1})
+		p.log = append(p.log, poolEvt{End: v.end, Nil: true, ID: -1, Step: v.sim.Step()})
 		return nil
 	}
 	x := p.free[len(p.free)-1]
 	p.free = p.free[:len(p.free)-1]
 	b := bufOf(x)
-	e := poolEvt{End: v.end, ID: p.ident(b)}
+	e := poolEvt{End: v.end, ID: p.ident(b), Step: v.sim.Step()}
 	b = b[:cap(b)]
 	for i := range b {
 		if b[i] != poison {
@@ -659,7 +666,7 @@ func (v *poolView) Put(x interface{}) {
 	p.mu.Lock()
 	defer p.mu.Unlock()
 	b := bufOf(x)
-	e := poolEvt{Put: true, End: v.end, ID: p.ident(b)}
+	e := poolEvt{Put: true, End: v.end, ID: p.ident(b), Step: v.sim.Step()}
 	if b == nil {
 		e.Bad = "Put of a value without a byte slice"
 		p.bad = append(p.bad, e.Bad)
